@@ -120,18 +120,27 @@ theorem parseIfdata_fallback {e : Env} {f32 : List Char → Option (List Char)} 
 
 /-! ## the fallback on the real environment -/
 
-theorem scan_atEnd {e : Env} {s : PState} (h : AtEnd e s) : scan .normal [] (e.toks.toList.drop s.pos) = true := by
+theorem scan_atEnd {e : Env} {s : PState} (h : AtEnd e s) :
+    scanV maxNestingDepth .normal [] (e.toks.toList.drop s.pos) = .accept := by
   obtain ⟨t, ht, h2⟩ := h
-  rw [drop_eq_cons ht, scan_normal, if_neg (by omega), if_pos h2]
+  rw [drop_eq_cons ht, scanV_normal, if_neg (by omega), if_pos h2]
 
-theorem unknownStart_balanced (toks : Array PTok) (strict : Bool) (f32 : List Char → Option (List Char))
+/-- the verdict of the scanner with the limit on the content at position `p` -/
+def verdictAt (toks : Array PTok) (p : Nat) : Verdict := scanV maxNestingDepth .normal [] (toks.toList.drop p)
+
+/-- the three ways in which the fallback ends are the three verdicts of the scanner with the limit: a result with all
+    values kept, `NestingTooDeep`, or another error -/
+theorem unknownStart_verdict (toks : Array PTok) (strict : Bool) (f32 : List Char → Option (List Char))
     (hk : TokOk toks) (hne : 0 < toks.size) (hni : NoInc (specialEnv toks strict))
     (hat : AtomsOk (specialEnv toks strict))
     (ctx : Ctx) (s : PState) (hs : s.pos ≤ toks.size) :
-    (balanced toks s.pos = true →
+    (verdictAt toks s.pos = .accept →
       ∃ g s', unknownStart ctx (specialEnv toks strict) s = .ok g s' ∧ AtEnd (specialEnv toks strict) s' ∧
         Rel (specialEnv toks strict) f32 s s' (values true g)) ∧
-    (balanced toks s.pos = false → ∃ d s', unknownStart ctx (specialEnv toks strict) s = .err d s') := by
+    (verdictAt toks s.pos = .tooDeep →
+      ∃ line s', unknownStart ctx (specialEnv toks strict) s = .err ⟨.nestingTooDeep, line⟩ s') ∧
+    (verdictAt toks s.pos = .reject →
+      ∃ d s', unknownStart ctx (specialEnv toks strict) s = .err d s' ∧ d.kind ≠ .nestingTooDeep) := by
   have htot := good_total (unknownStart_good (F := True) (cfgS toks strict hk hne) (fun _ _ => hni) ctx s (fun _ => hs))
   have hspec := unknownStart_spec f32 hat ctx s hs
   cases hr : unknownStart ctx (specialEnv toks strict) s with
@@ -140,22 +149,55 @@ theorem unknownStart_balanced (toks : Array PTok) (strict : Bool) (f32 : List Ch
   | ok g s' =>
     rw [hr] at hspec
     obtain ⟨hrel, hn, hend⟩ := hspec
-    constructor
-    · intro _; exact ⟨g, s', rfl, hend, hrel⟩
-    · intro hb
-      have : balanced toks s.pos = true := by
-        unfold balanced
-        have := hn []
-        rw [scan_atEnd hend] at this
-        exact this
-      rw [hb] at this; cases this
+    have hv : verdictAt toks s.pos = .accept := by
+      unfold verdictAt
+      have := hn [] rfl
+      rw [scan_atEnd hend] at this
+      exact this
+    refine ⟨fun _ => ⟨g, s', rfl, hend, hrel⟩, fun h => ?_, fun h => ?_⟩ <;> rw [hv] at h <;> cases h
   | err d s' =>
     rw [hr] at hspec
-    constructor
-    · intro hb
-      have : balanced toks s.pos = false := hspec []
-      rw [hb] at this; cases this
-    · intro _; exact ⟨d, s', rfl⟩
+    have hv : verdictAt toks s.pos = verdictOf d.kind := hspec [] rfl
+    unfold verdictOf at hv
+    by_cases hk' : d.kind = .nestingTooDeep
+    · rw [if_pos hk'] at hv
+      refine ⟨fun h => ?_, fun _ => ⟨d.line, s', ?_⟩, fun h => ?_⟩
+      · rw [hv] at h; cases h
+      · obtain ⟨k, line⟩ := d
+        cases hk'
+        rfl
+      · rw [hv] at h; cases h
+    · rw [if_neg hk'] at hv
+      refine ⟨fun h => ?_, fun h => ?_, fun _ => ⟨d, s', rfl, hk'⟩⟩ <;> rw [hv] at h <;> cases h
+
+theorem verdictAt_accept_iff (toks : Array PTok) (p : Nat) :
+    verdictAt toks p = .accept ↔ balanced toks p = true ∧ nestingOk toks p = true :=
+  scanV_accept_iff maxNestingDepth [] (toks.toList.drop p)
+
+theorem verdictAt_tooDeep_of (toks : Array PTok) (p : Nat) (hb : balanced toks p = true) (hd : nestingOk toks p = false) :
+    verdictAt toks p = .tooDeep :=
+  scanV_tooDeep_of maxNestingDepth [] (toks.toList.drop p) hb hd
+
+/-- balanced content that is not nested too deep is kept with all its values; balanced content that is nested too
+    deep is rejected with `NestingTooDeep`; content that is not balanced is rejected (with whichever of the two
+    problems comes first) -/
+theorem unknownStart_balanced (toks : Array PTok) (strict : Bool) (f32 : List Char → Option (List Char))
+    (hk : TokOk toks) (hne : 0 < toks.size) (hni : NoInc (specialEnv toks strict))
+    (hat : AtomsOk (specialEnv toks strict))
+    (ctx : Ctx) (s : PState) (hs : s.pos ≤ toks.size) :
+    (balanced toks s.pos = true → nestingOk toks s.pos = true →
+      ∃ g s', unknownStart ctx (specialEnv toks strict) s = .ok g s' ∧ AtEnd (specialEnv toks strict) s' ∧
+        Rel (specialEnv toks strict) f32 s s' (values true g)) ∧
+    (balanced toks s.pos = true → nestingOk toks s.pos = false →
+      ∃ line s', unknownStart ctx (specialEnv toks strict) s = .err ⟨.nestingTooDeep, line⟩ s') ∧
+    (balanced toks s.pos = false → ∃ d s', unknownStart ctx (specialEnv toks strict) s = .err d s') := by
+  obtain ⟨h1, h2, h3⟩ := unknownStart_verdict toks strict f32 hk hne hni hat ctx s hs
+  refine ⟨fun hb hd => h1 ((verdictAt_accept_iff toks s.pos).2 ⟨hb, hd⟩),
+    fun hb hd => h2 (verdictAt_tooDeep_of toks s.pos hb hd), fun hb => ?_⟩
+  cases hv : verdictAt toks s.pos with
+  | accept => rw [((verdictAt_accept_iff toks s.pos).1 hv).1] at hb; cases hb
+  | tooDeep => obtain ⟨line, s', h⟩ := h2 hv; exact ⟨_, s', h⟩
+  | reject => obtain ⟨d, s', h, _⟩ := h3 hv; exact ⟨d, s', h⟩
 
 /-! ## `ifdata_cleanup` -/
 
